@@ -7,6 +7,7 @@ import Proofs.GrepPlainC
 import Proofs.GrepPlainD
 import Proofs.GrepEmit
 import Proofs.RipGrepJson
+import Proofs.GrepRowEmit
 /-!
 C16 — grep output keeps every hit's path, line number and code.
 
@@ -419,5 +420,89 @@ theorem bytes_record_not_recognised :
       ("submatches", .arr [])])]) = none := by decide
 
 end RgJsonRecords
+
+/-! ## The layout of a classic-style row (session 4, T10b)
+
+`GrepRow.classicRow` (DeltaModel/GrepRow.lean) interprets what is regenerated from
+`emit_classic_format_grep_line`, `_emit_classic_format_file_and_line_number`, `_emit_classic_format_code`,
+`make_output_config` (grep.rs) and `paint_file_path_with_line_number` (paint.rs): what is written in which
+order, which config style paints which part, markers, padding table (`Generated/GrepRowShape.lean`).
+Rows of the ripgrep output style and the function-context header are written by the hunk-header helper and
+are not in this model (`rowCells = none`). -/
+
+section GrepRowLayout
+open GrepRow Generated.GrepRowShape
+
+/-- A classic-style row, for every line kind, path, number, separator symbol, navigate / padding setting:
+navigate marker (if any), the path in the file style, then — when there is a line number — separator,
+the number in the line-number style, then the separator, the padding, and the code sections in their
+styles; nothing else. -/
+theorem classic_row_layout (cfg : GrepRow.Cfg) (kind : Kind) (path : List Char) (num : Option Nat)
+    (secs : List (Bool × Bytes)) :
+    classicRow cfg kind path num secs =
+      markerCells cfg kind ++ (Paint.file, RipGrepJson.bytesOfChars path) ::
+      ((match num with
+        | some n => [(Paint.plain, sepOf cfg kind), (Paint.number, digitsOf n), (Paint.plain, sepOf cfg kind)] ++
+                    (if cfg.out.pad = true then [(Paint.plain, padOf n)] else [])
+        | none => [(Paint.plain, sepOf cfg kind)]) ++ codeCells kind secs) :=
+  classicRow_eq cfg kind path num secs
+
+/-- What a reader gets from that row: in the file style exactly the path, once; in the line-number style
+exactly the decimal number, once, when there is one (nothing otherwise); in the code styles exactly the
+code. -/
+theorem classic_row_shows_path_number_code (cfg : GrepRow.Cfg) (kind : Kind) (path : List Char)
+    (num : Option Nat) (secs : List (Bool × Bytes)) :
+    reading (classicRow cfg kind path num secs) =
+      ([RipGrepJson.bytesOfChars path], num.toList.map digitsOf, secsText secs) :=
+  reading_classicRow cfg kind path num secs
+
+/-- `make_output_config` as regenerated: `git grep -W` shows the function header as an ordinary line and
+marks matches under `--navigate`; everything else renders it as a hunk header, without markers; numbers
+are padded in all cases. -/
+theorem output_config_table :
+    outputConfig "GitGrep" ["-n", "-W"] = { headerAsHunk := false, marker := true, pad := true } ∧
+    outputConfig "GitGrep" ["--function-context"] = { headerAsHunk := false, marker := true, pad := true } ∧
+    outputConfig "GitGrep" ["-n", "-p"] = { headerAsHunk := true, marker := false, pad := true } ∧
+    outputConfig "GitGrep" ["-n"] = { headerAsHunk := true, marker := false, pad := true } ∧
+    outputConfig "OtherGrep" ["-W"] = { headerAsHunk := true, marker := false, pad := true } := by decide
+
+example : rowText (classicRow { navigate := true, sepSymbol := ":", out := outputConfig "GitGrep" ["-W"] }
+      .context "src/a.rs".toList (some 700) [(false, utf8 "let x")]) = utf8 "  src/a.rs:700:let x" := by decide
+
+example : rowText (classicRow { navigate := false, sepSymbol := "keep", out := outputConfig "OtherGrep" [] }
+      .match_ "src/a.rs".toList (some 120) [(false, utf8 "let "), (true, utf8 "x")]) = utf8 "src/a.rs:120:let x" := by decide
+
+/-- Whole streams in the classic output style, from the hits to what a reader gets from the rendered rows:
+for every stream of admissible hits (`hitOk`, as in `one_row_per_hit_partial`) none of which is a
+function-context header rendered as a hunk header, emission does not panic and the rows show, one row per
+hit and in order, the hit's path (file style, once), its line number when it has one (line-number style,
+once) and its code with tabs expanded (code styles) — under every separator symbol, navigate and padding
+setting. Partial: the ripgrep output style and the function-context header go through the hunk-header
+helper, whose layout is not modelled; the statement from the input *text* follows by the parse theorems
+(`coloured_round_trip`, `plain_round_trip_partial_*`, `record_with_extra_members_accepted`). -/
+theorem grep_line_rendered_faithfully_partial (cfg : Grep.Cfg) (rcfg : GrepRow.Cfg) (lines : List Line)
+    (hstyle : ∀ h, Line.hit h ∈ lines → cfg.outputType.getD h.gtype = .classic)
+    (hok : ∀ h, Line.hit h ∈ lines → hitOk cfg .classic h = true)
+    (hhdr : ∀ h, Line.hit h ∈ lines → (h.kind = .contextHeader && cfg.headerAsHunkHeader) = false) :
+    ∃ rows, emit cfg lines = .ok rows ∧
+      rowsReading rcfg rows = (hitsOf lines).map fun h =>
+        ([RipGrepJson.bytesOfChars h.path], h.num.toList.map digitsOf, expandB cfg.tabWidth h.code) := by
+  obtain ⟨rows, he, ha⟩ := one_row_per_hit_partial cfg .classic lines hstyle hok
+  refine ⟨rows, he, ?_⟩
+  have hc := emitFrom_classicOnly cfg lines none rows hstyle hhdr he
+  rw [rowsReading_attach rcfg rows none hc]
+  show (attach rows).map encode = _
+  rw [ha, List.map_map]
+  rfl
+
+/-- From the input text: a numbered `git grep` line of fragment A, alone, in the classic style. -/
+example : ∃ rows, emit { outputType := none, tabWidth := 4, headerAsHunkHeader := true }
+      [.hit (exHit "src/a.rs" .match_ (some 12) "\tfoo")] = .ok rows ∧
+    rowsReading { navigate := false, sepSymbol := "keep", out := outputConfig "GitGrep" ["-n"] } rows =
+      [([utf8 "src/a.rs"], [utf8 "12"], utf8 "    foo")] := by
+  refine ⟨_, rfl, ?_⟩
+  decide
+
+end GrepRowLayout
 
 end C16
